@@ -434,7 +434,7 @@ def run(ctx):
         for method in ("1site", "2site"):
             for NS in (2, 3, 5):
                 consts = dict(N=N, Method=f'"{method}"', NS=NS, Bug='"none"')
-                r = tlc.run("Sweep", tlc.make_cfg(constants=consts, spec="Spec", invariants=["EnvFresh", "Coverage", "ResFromLastSweep", "OptIsWindow"]), mode="check", timeout=3000)
+                r = tlc.run("Sweep", tlc.make_cfg(constants=consts, spec="Spec", invariants=["EnvFresh", "Coverage", "ResFromLastSweep", "OptIsWindow"]), mode="check", vacuity=True, timeout=3000)
                 ctx.add_tlc(r, f"Sweep N={N} {method} NS={NS}: both start directions, every choice of the lowest-energy window, every convergence point")
                 if r["violated"]:
                     ctx.violation(f"C08:spec:Sweep:{r['violated']}", "Sweep violates " + r["violated"], {"tlc": (r.get("error_text") or "")[:2000]})
@@ -449,7 +449,7 @@ def run(ctx):
             raise MachineryError(f"Sweep regression {bug} did not violate EnvFresh")
     for K in ((2, 3, 4) if tier == "quick" else (2, 3, 4, 5)):
         cfg = tlc.make_cfg(constants=dict(K=K, Mode='"dmrg"', Bug='"none"'), spec="Spec", invariants=["EnvFresh", "CentreHome", "DmrgCoverage", "EmitSchedule"])
-        r = tlc.run("TreeOpt", cfg, mode="emit", timeout=3000)
+        r = tlc.run("TreeOpt", cfg, mode="emit", vacuity=True, timeout=3000)
         ctx.add_tlc(r, f"TreeOpt dmrg K={K}: every increasing tree, two sweeps")
         if r["violated"]:
             ctx.violation(f"C08:spec:TreeOpt:{r['violated']}", "TreeOpt violates " + r["violated"], {"tlc": (r.get("error_text") or "")[:2000]})
